@@ -463,6 +463,98 @@ func runSidecarCase(c *SCase, work string) (string, []SObs, error) {
 	return w.String(), obs, nil
 }
 
+// sidecarConfigPush: the coordinator's side of "out of sync" is scripted in the coord / loop engines;
+// this is the sidecar's side, on the real Service: a pushed raw configuration is what the sidecar
+// runs afterwards, and the hash it then reports is the hash anybody computes for that content; a
+// refused push changes nothing.
+func sidecarConfigPush(work string, res *Result) {
+	dir, err := os.MkdirTemp(work, "cfgpush")
+	if err != nil {
+		return
+	}
+	defer os.RemoveAll(dir)
+	clock := int64(0)
+	rig, err := newSidecarRig(dir, 0, &clock, time.Unix(1700000000, 0).UTC())
+	if err != nil {
+		res.Notes = append(res.Notes, "config push scenario: "+err.Error())
+		return
+	}
+	fresh := func(text string) string {
+		cm := prom.NewConfigManager()
+		if err := cm.ReloadFromRaw([]byte(text)); err != nil {
+			return "error: " + err.Error()
+		}
+		return cm.ConfigInfo().ConfigHash
+	}
+	reported := func() string {
+		info := shard.RuntimeInfo{}
+		if err := rig.get("/api/v1/shard/runtimeinfo/", &info); err != nil {
+			return "error: " + err.Error()
+		}
+		return info.ConfigHash
+	}
+	push := func(svc *sidecar.Service, text string) int {
+		body, _ := json.Marshal(&shard.UpdateConfigRequest{RawContent: text})
+		// the coordinator posts to the path without the trailing slash; the route is registered with it and
+		// the client follows the 307 with method and body, as net/http does
+		path := "/api/v1/status/config"
+		for hop := 0; hop < 3; hop++ {
+			rec := httptest.NewRecorder()
+			svc.ServeHTTP(rec, httptest.NewRequest("POST", path, bytes.NewReader(body)))
+			if (rec.Code == 307 || rec.Code == 308) && rec.Header().Get("Location") != "" {
+				path = rec.Header().Get("Location")
+				continue
+			}
+			return rec.Code
+		}
+		return 310
+	}
+	viol := func(clause, what string) {
+		for _, p := range []string{"C08", "C16"} {
+			res.ImplViol = capViol(res.ImplViol, Violation{Property: p, Clause: clause, Signature: p + "/" + clause, What: what,
+				Case: map[string]interface{}{"scenario": "configPush"}}, 8)
+		}
+	}
+	res.Evaluations++
+	res.count("config_push_scenario")
+	if got, want := reported(), fresh(sidecarCfg); got != want {
+		viol("reportedHash", fmt.Sprintf("a sidecar started with a configuration reports hash %s, a fresh process computes %s for that content", got, want))
+	}
+	edited := strings.Replace(sidecarCfg, "scrape_timeout: 2s", "scrape_timeout: 3s", -1)
+	if code := push(rig.svc, edited); code != 200 {
+		viol("pushRefused", fmt.Sprintf("a valid raw configuration pushed to the sidecar is answered with status %d", code))
+	}
+	if got, want := reported(), fresh(edited); got != want {
+		viol("reportedHash", fmt.Sprintf("after the current raw configuration was pushed the sidecar reports hash %s, the coordinator computes %s for that content: the shard never gets in sync", got, want))
+	}
+	if ji := rig.sm.GetJob("job0"); ji == nil || time.Duration(ji.Config.ScrapeTimeout) != 3*time.Second {
+		viol("notApplied", "the sidecar reports the hash of the pushed configuration but its scrape jobs still run the previous one")
+	}
+	before := reported()
+	if code := push(rig.svc, "scrape_configs: [ {job_name: 7"); code == 200 {
+		viol("badAccepted", "an unparsable raw configuration is accepted by the sidecar")
+	}
+	if got := reported(); got != before {
+		viol("badChanged", fmt.Sprintf("a refused configuration push changed the reported hash from %s to %s", before, got))
+	}
+	ext := strings.Replace(edited, "global:", "global:\n  external_labels: {replica: b}", 1)
+	if fresh(ext) == fresh(edited) {
+		_ = push(rig.svc, ext)
+		if got := reported(); got != before {
+			viol("extLabels", "pushing the same configuration with other external labels changes the reported hash")
+		}
+	}
+	// a sidecar that reads its configuration from a file refuses pushes
+	fileSvc := sidecar.NewService("/etc/prometheus/prometheus.yml", "http://127.0.0.1:1", func() (int64, error) { return 0, nil }, rig.cfg, rig.tm, prometheus.NewRegistry(), quietLog())
+	h1 := reported()
+	if code := push(fileSvc, sidecarCfg); code == 200 {
+		viol("fileOverride", "a sidecar configured with a configuration file accepts a raw configuration push")
+	}
+	if got := reported(); got != h1 {
+		viol("fileOverride", "a refused push (configuration file set) changed the configuration the sidecar runs")
+	}
+}
+
 func runSidecar(a Args) *Result {
 	res := newResult("sidecar", a.seed, a.tier)
 	res.Rule = "random operation histories (updates with adds/removals/state flips/repeats/empty sets/moves between jobs/a target listed under two jobs at once, scrapes with known sample counts or failures, restarts from the store directory) against the real TargetsManager+Service+Proxy; a history is non-trivial when it contains a kept entry, a flip to in-transfer, a full window or a restart; distinct by encoded history"
@@ -479,6 +571,9 @@ func runSidecar(a Args) *Result {
 		work = os.TempDir()
 	}
 	_ = os.MkdirAll(work, 0755)
+	if a.replay == "" && (a.wants("C08") || a.wants("C16")) {
+		sidecarConfigPush(work, res)
+	}
 	var cases []*SCase
 	if a.corpus != "" {
 		files, _ := os.ReadDir(a.corpus)
